@@ -22,7 +22,7 @@ claim('C05', 'model_checking',
       'explicit-state BFS over send / ownership-change / disconnect / slow-reader / batched-arrival histories on the real bus, judged by a registry model plus exactly-once and per-recipient FIFO checks on payload tokens',
       'Every history up to the depth bound over the alphabet is executed on an in-process bus; each message carries a unique token. The token must arrive exactly once, unchanged except SENDER, at the '
       'primary owner of the destination at processing time (per the specification\'s ownership model), at most once at a connection with an eavesdrop=true rule, and nowhere else (a bystander with a non-eavesdropping '
-      'catch-all rule must see nothing); a recipient that stalls and resumes must see the exact processing order; an undeliverable method call yields exactly one error with its serial. A call written in the same main-loop iteration in which its recipient\'s socket closes (both write orders) yields exactly one error or reaches the heir of the name; a reload of the unchanged configuration changes nothing. For batched '
+      'catch-all rule must see nothing); a recipient that stalls and resumes must see the exact processing order; an undeliverable method call yields exactly one error with its serial. A call written in the same main-loop iteration in which its recipient\'s socket closes (both write orders) yields exactly one error or reaches the heir of the name; a reload of the unchanged configuration changes nothing; every second message travels in the byte order foreign to the host. For batched '
       'arrivals one of the serialisations consistent with each client\'s own order must explain all observations.',
       'Trusts pyv/models/names.py for ownership. More than 3 senders/recipients, batches of more than 2 clients and histories beyond the depth bound are not covered. Auto-start is in C19.',
       'DESIGN.md section 4 C05')
